@@ -2,6 +2,7 @@ package main
 
 import (
 	"fmt"
+	"os"
 	"sort"
 	"strconv"
 	"strings"
@@ -15,7 +16,14 @@ import (
 
 // opTimeout bounds every call into the library: a call that does not return in time is
 // reported as `timeout` (the property demands termination).
-const opTimeout = 4 * time.Second
+var opTimeout = func() time.Duration {
+	if s := os.Getenv("C10_TIMEOUT_SECONDS"); s != "" {
+		if n, err := strconv.Atoi(s); err == nil {
+			return time.Duration(n) * time.Second
+		}
+	}
+	return 10 * time.Second
+}()
 
 // watchdog runs f in a goroutine; status is "ok", "timeout" or "panic:<msg>".
 func watchdog(f func()) string {
